@@ -30,6 +30,8 @@ const NEVER: (u64, u128) = (1_000_000, 1_000_000_000);
 const ALWAYS: (u64, u128) = (1, 10_000_000_000_000);
 const SHORT_BAN_NS: u128 = 5_000_000;
 const LONG_BAN_NS: u128 = 3_600_000_000_000;
+/// Two minutes: outlives every case, but ends before the handler's next ban sweep (300 s) is due.
+const MID_BAN_NS: u128 = 120_000_000_000;
 const SLEEP_MS: u64 = 15;
 
 fn dur(ns: u128) -> Option<Duration> {
@@ -41,6 +43,10 @@ fn dur(ns: u128) -> Option<Duration> {
 }
 
 fn ip_of(i: u64) -> IpAddr {
+    if i % 7 == 3 {
+        // an IPv4-mapped IPv6 address (a different address than the IPv4 one it embeds)
+        return IpAddr::V6(Ipv4Addr::new(10, (i >> 16) as u8, (i >> 8) as u8, i as u8).to_ipv6_mapped());
+    }
     if i % 5 == 4 {
         IpAddr::V6(Ipv6Addr::new(0xfd00, 0, 0, 0, 0, 0, (i >> 16) as u16, i as u16))
     } else {
@@ -795,10 +801,28 @@ impl Runner for LimiterRunner {
                 let n_permit = snap.permit_nodes.contains(&node);
                 let n_ban = snap.ban_nodes.iter().any(|(k, _)| *k == node);
                 let RecvSide { rt, recv } = r;
-                let Some(o) = rt.block_on(recv.deliver(addr, data, barrier_addr())) else {
+                let Some((o, reported)) = rt.block_on(recv.deliver_reporting_source(addr, data, barrier_addr())) else {
                     out.push("!MON C18 recv-handler-stopped".into());
                     return out.push("panic".into());
                 };
+                // what is handed on is attributed to the address the datagram came from
+                if let Some(rs) = reported {
+                    if rs != addr {
+                        out.push(format!("!MON C02 inbound-datagram-attributed-to-another-source from={} reported={}", addr, rs));
+                        out.push(format!("!MON C18 inbound-datagram-attributed-to-another-source from={} reported={}", addr, rs));
+                    }
+                }
+                // C13: an exemption is for one socket address; a datagram from a banned host passes only
+                // on an exemption of its own socket
+                {
+                    let other_port_exempt = recv.expected_responses.read().keys().any(|k| k.ip() == addr.ip() && *k != addr);
+                    if !exempt && other_port_exempt && ip_ban && !ip_permit && o != RecvOutcome::Dropped {
+                        out.push(format!("!MON C13 datagram-passed-on-the-exemption-of-another-socket ip={} port={}", i, port));
+                    }
+                    if exempt && o == RecvOutcome::Dropped {
+                        out.push(format!("!MON C13 awaited-datagram-dropped ip={} port={}", i, port));
+                    }
+                }
                 let expect_kind = match *kind {
                     "g" => RecvOutcome::Unrecognized,
                     _ => RecvOutcome::Inbound,
@@ -1023,9 +1047,10 @@ fn gen_filter_cfg(rng: &mut Rng) -> (String, bool, FCfg) {
         2 => Some(2),
         _ => Some(5),
     };
-    let ban = match rng.below(3) {
+    let ban = match rng.below(4) {
         0 => None,
         1 => Some(SHORT_BAN_NS),
+        2 => Some(MID_BAN_NS),
         _ => Some(LONG_BAN_NS),
     };
     let lim = match &quotas {
@@ -1047,12 +1072,13 @@ fn gen_filter_cfg(rng: &mut Rng) -> (String, bool, FCfg) {
 /// Seeds the permit/ban lists. Returns whether a short (expiring) ban was used.
 fn gen_seed_lists(rng: &mut Rng, ops: &mut Vec<String>, now: u128, nips: u64, nnodes: u64) -> bool {
     let mut short = false;
-    let mut d = |rng: &mut Rng, short: &mut bool| match rng.below(3) {
+    let mut d = |rng: &mut Rng, short: &mut bool| match rng.below(4) {
         0 => "x".to_string(),
         1 => {
             *short = true;
             SHORT_BAN_NS.to_string()
         }
+        2 => MID_BAN_NS.to_string(),
         _ => LONG_BAN_NS.to_string(),
     };
     for _ in 0..rng.below(4) {
@@ -1130,6 +1156,19 @@ fn gen_recv_case(rng: &mut Rng, thorough: bool, stats: &mut Stats) -> Vec<String
     let mut now: u128 = rng.below(1000) as u128;
     let (nips, nnodes) = (rng.range(1, 4), rng.range(1, 6));
     short |= gen_seed_lists(rng, &mut ops, now, nips, nnodes);
+    if rng.chance(1, 3) {
+        // directed: a host is banned, an answer is awaited from one of its ports, and datagrams arrive
+        // from that port (pass) and from another port of the same host (refused)
+        stats.bump("gen.recv.directed-exempt-port-vs-banned-host");
+        let ip = rng.below(nips);
+        ops.push(format!("lfbi {} {} {}", now, ip, LONG_BAN_NS));
+        ops.push(format!("lrx {} 1000", ip));
+        for _ in 0..rng.range(2, 4) {
+            let kind = *rng.pick(&["g", "w", "m"]);
+            ops.push(format!("lrin {} {} {} {} {}", now, ip, 1000 + rng.below(2), kind, rng.below(nnodes)));
+        }
+        ops.push(format!("lrin {} {} 1001 m {}", now, ip, rng.below(nnodes)));
+    }
     let total = if thorough { rng.range(15, 50) } else { rng.range(15, 30) };
     for _ in 0..total {
         let ip = rng.below(nips);
@@ -1157,8 +1196,12 @@ fn gen_recv_case(rng: &mut Rng, thorough: bool, stats: &mut Stats) -> Vec<String
     ops
 }
 
-pub fn gen_case(rng: &mut Rng, tier: &str, _profile: &str, stats: &mut Stats) -> Vec<String> {
+pub fn gen_case(rng: &mut Rng, tier: &str, profile: &str, stats: &mut Stats) -> Vec<String> {
     let thorough = tier == "thorough";
+    if profile == "C13" || profile == "C02" {
+        // the receive path only (exemptions, attribution of what is handed on)
+        return gen_recv_case(rng, thorough, stats);
+    }
     match rng.below(20) {
         0..=13 => gen_limiter_case(rng, thorough, stats),
         14..=17 => gen_filter_case(rng, thorough, stats),
